@@ -236,7 +236,7 @@ func siblingsOrdered(ns []symNode, r *Result, text string) {
 
 func checkC14Dual(c C14Case) Result {
 	var r Result
-	jsonText := gen.RenderJSON(c.Dual.Items)
+	jsonText := gen.RenderJSONLayout(c.Dual.Items, c.Dual.Layout)
 	schema := c.Dual.Schema
 	wm := m.WorldM{Paths: []m.PathM{{Path: "p0", Schema: &schema, Files: []m.FileM{{Name: "main.tf.json", Text: jsonText, JSON: true}}}}}
 	w, pi := SafeBuild(func() *world.World { return world.Build(wm) })
